@@ -1,12 +1,10 @@
-SPECIFICATION SpecAll
+SPECIFICATION SpecH
 CONSTANTS
-  MaxLen = 2
+  MaxLen = 0
   Frames <- FramesC
   Annots <- AnnotsC
   FixCleanup = TRUE
   MaxSess = 3
   HFiles <- HFilesC
-  Consoles <- NoConsole
-INVARIANT InvLogIdentity
-INVARIANT InvLineShape
+  Consoles <- AnyConsole
 INVARIANT InvHistIdentity
